@@ -130,7 +130,7 @@ def history_case(inp):
     """code -> spec: the real chemistry; the same build recorded serially and with worker processes"""
     logs, crn = [], None
     for mode, par, w in [("serial", False, None)] + [("parallel-%d" % w, True, w) for w in inp["workers"]]:
-        crn, log = expansion.record_build(inp["rules"], inp["seeds"], parallel=par, workers=w, **inp["kw"])
+        crn, log = expansion.record_build(inp["rules"], inp["seeds"], parallel=par, workers=w, flat={}, **inp["kw"])
         logs.append((mode, log))
     runs = expansion.project_runs(logs)
     if not any(s["ran"] and len(s["post"]["nodes"]) > len(runs[0]["init"]["nodes"]) for s in runs[0]["steps"]):
@@ -266,6 +266,7 @@ def expansion_stages(ctx, nets):
         if len(behs) > per:
             behs = rng.sample(behs, per)
         for k, b in enumerate(behs):
+            b = dict(b, flat={"skip_no_change": rng.random() < 0.7, "allow_empty_side": rng.random() < 0.4, "deduplicate": rng.random() < 0.7})
             rep.append({"beh": b, "cfg": mc_cfg(d), "workers": rng.choice([2, 3]) if k % (40 if q else 25) == 0 else 0})
     core.run_stage(ctx, X("expansion-model-behaviours-replayed", replay_case, rep, False))
     # code -> spec: real chemistry, serial and parallel histories of the same build
